@@ -30,6 +30,15 @@ pub fn fill_lengths(info: &TypeInfo) -> Vec<usize> {
 pub fn output_alphabet(info: &TypeInfo) -> Vec<Op> {
     let mut v = vec![Op::U32, Op::U64];
     v.extend(fill_lengths(info).into_iter().map(Op::Fill));
+    // destinations that do not start on a word boundary (any path that reinterprets the byte slice)
+    v.extend([Op::FillAt(5, 1), Op::FillAt(9, 3), Op::FillAt(17, 2)]);
+    match info.family {
+        Family::Hc128 => v.extend([Op::FillAt(65, 1), Op::FillAt(8197, 1), Op::FillAt(8192, 3)]),
+        Family::Isaac => v.extend([Op::FillAt(1025, 1), Op::FillAt(1024, 3), Op::FillAt(8197, 1)]),
+        Family::Isaac64 => v.extend([Op::FillAt(2049, 1), Op::FillAt(2048, 5), Op::FillAt(8197, 1)]),
+        Family::Jitter => {}
+        _ => v.extend([Op::FillAt(8197, 1), Op::FillAt(64, 4)]),
+    }
     v
 }
 
@@ -117,7 +126,7 @@ pub fn explore(mk: &dyn Maker, stream: &Stream, prefix: &[Op], start: Pos, alpha
                 if st.pos.half {
                     stats.half_pending_transitions += 1;
                 }
-                if let Op::Fill(n) = op {
+                if let Op::Fill(n) = &op.norm() {
                     if n % 8 != 0 && n % 8 <= 7 {
                         stats.tails += 1;
                     }
